@@ -14,33 +14,33 @@ Ltac trig_ring :=
 
 (* sersic2d depends on position and angle only through the squared elliptical radius *)
 Lemma sersic2d_via_zsq lg X Y xc yc f r n e t X' Y' xc' yc' t' :
-  sersic2d_zsq X Y xc yc f r n e t = sersic2d_zsq X' Y' xc' yc' f r n e t' ->
+  sersic2d_zsq X Y xc yc r e t = sersic2d_zsq X' Y' xc' yc' r e t' ->
   sersic2d lg X Y xc yc f r n e t = sersic2d lg X' Y' xc' yc' f r n e t'.
 Proof. intros H. unfold sersic2d. rewrite H. reflexivity. Qed.
 
-Lemma zsq_theta_pi X Y xc yc f r n e t :
-  sersic2d_zsq X Y xc yc f r n e (t + PI) = sersic2d_zsq X Y xc yc f r n e t.
+Lemma zsq_theta_pi X Y xc yc r e t :
+  sersic2d_zsq X Y xc yc r e (t + PI) = sersic2d_zsq X Y xc yc r e t.
 Proof. unfold sersic2d_zsq. trig_ring. Qed.
 
-Lemma zsq_transpose X Y xc yc f r n e t :
-  sersic2d_zsq Y X yc xc f r n e (PI / 2 - t) = sersic2d_zsq X Y xc yc f r n e t.
+Lemma zsq_transpose X Y xc yc r e t :
+  sersic2d_zsq Y X yc xc r e (PI / 2 - t) = sersic2d_zsq X Y xc yc r e t.
 Proof. unfold sersic2d_zsq. trig_ring. Qed.
 
-Lemma zsq_mirror N X Y xc yc f r n e t :
-  sersic2d_zsq (N - 1 - X) Y (N - 1 - xc) yc f r n e (- t) = sersic2d_zsq X Y xc yc f r n e t.
+Lemma zsq_mirror N X Y xc yc r e t :
+  sersic2d_zsq (N - 1 - X) Y (N - 1 - xc) yc r e (- t) = sersic2d_zsq X Y xc yc r e t.
 Proof. unfold sersic2d_zsq. trig_ring. Qed.
 
-Lemma zsq_centre_symmetric xc yc u v f r n e t :
-  sersic2d_zsq (xc + u) (yc + v) xc yc f r n e t = sersic2d_zsq (xc - u) (yc - v) xc yc f r n e t.
+Lemma zsq_centre_symmetric xc yc u v r e t :
+  sersic2d_zsq (xc + u) (yc + v) xc yc r e t = sersic2d_zsq (xc - u) (yc - v) xc yc r e t.
 Proof. unfold sersic2d_zsq. trig_ring. Qed.
 
-Lemma zsq_translate a b X Y xc yc f r n e t :
-  sersic2d_zsq (X + a) (Y + b) (xc + a) (yc + b) f r n e t = sersic2d_zsq X Y xc yc f r n e t.
+Lemma zsq_translate a b X Y xc yc r e t :
+  sersic2d_zsq (X + a) (Y + b) (xc + a) (yc + b) r e t = sersic2d_zsq X Y xc yc r e t.
 Proof. unfold sersic2d_zsq. trig_ring. Qed.
 
 (* ellip = 0: no dependence on theta *)
-Lemma zsq_round X Y xc yc f r n t :
-  sersic2d_zsq X Y xc yc f r n 0 t = ((X - xc) ^ 2 + (Y - yc) ^ 2) * (/ r) ^ 2.
+Lemma zsq_round X Y xc yc r t :
+  sersic2d_zsq X Y xc yc r 0 t = ((X - xc) ^ 2 + (Y - yc) ^ 2) * (/ r) ^ 2.
 Proof.
   unfold sersic2d_zsq. trig_shift. pose proof (sin2_cos2_1 t) as Hs.
   set (c := cos t) in *. set (s := sin t) in *.
@@ -48,16 +48,16 @@ Proof.
 Qed.
 
 (* the major axis: along (xc, yc) + w (-sin t, cos t) the elliptical radius is |w| / r_eff ... *)
-Lemma zsq_along_major xc yc f r n e t w :
-  sersic2d_zsq (xc - w * sin t) (yc + w * cos t) xc yc f r n e t = (w * / r) ^ 2.
+Lemma zsq_along_major xc yc r e t w :
+  sersic2d_zsq (xc - w * sin t) (yc + w * cos t) xc yc r e t = (w * / r) ^ 2.
 Proof.
   unfold sersic2d_zsq. trig_shift. pose proof (sin2_cos2_1 t) as Hs.
   set (c := cos t) in *. set (s := sin t) in *. unfold Rdiv. ring [Hs].
 Qed.
 
 (* ... and along (cos t, sin t) it is |w| / ((1 - ellip) r_eff): axis ratio 1 - ellip *)
-Lemma zsq_along_minor xc yc f r n e t w :
-  sersic2d_zsq (xc + w * cos t) (yc + w * sin t) xc yc f r n e t = (w * / ((1 - e) * r)) ^ 2.
+Lemma zsq_along_minor xc yc r e t w :
+  sersic2d_zsq (xc + w * cos t) (yc + w * sin t) xc yc r e t = (w * / ((1 - e) * r)) ^ 2.
 Proof.
   unfold sersic2d_zsq. trig_shift. pose proof (sin2_cos2_1 t) as Hs.
   set (c := cos t) in *. set (s := sin t) in *. unfold Rdiv. ring [Hs].
@@ -216,8 +216,8 @@ Lemma sersic2d_translate lg a b X Y xc yc f r n e t :
 Proof. apply sersic2d_via_zsq, zsq_translate. Qed.
 
 (* theta + k pi, k any integer: same kernel (used for the modulo-pi wrap of C19) *)
-Lemma zsq_theta_kpi X Y xc yc f r n e t (k : nat) :
-  sersic2d_zsq X Y xc yc f r n e (t + INR k * PI) = sersic2d_zsq X Y xc yc f r n e t.
+Lemma zsq_theta_kpi X Y xc yc r e t (k : nat) :
+  sersic2d_zsq X Y xc yc r e (t + INR k * PI) = sersic2d_zsq X Y xc yc r e t.
 Proof.
   induction k as [|k IH].
   - simpl. rewrite Rmult_0_l, Rplus_0_r. reflexivity.
